@@ -1664,6 +1664,7 @@ func c16DutyElems() []c16DutyElem {
 		{"slot-max", c16DutyJSON("18446744073709551615", "1", "2", "128", "4", "3"), true},
 		{"unknown-validator", c16DutyJSON("100", "18446744073709551615", "2", "128", "4", "3"), true},
 		{"zero-fields", c16DutyJSON("0", "0", "0", "0", "0", "0"), true},
+		{"genesis-slot", c16DutyJSON("0", "1", "2", "128", "4", "3"), true},
 		{"position-beyond-length", c16DutyJSON("102", "1", "18446744073709551615", "1", "0", "18446744073709551615"), true},
 		{"null", "null", true},
 		{"empty-object", "{}", true},
